@@ -719,9 +719,14 @@ func Run(c *vh.Ctx) {
 	if len(c.ReplayRaw) > 0 {
 		var nr struct {
 			Neigh *neighCase `json:"neigh"`
+			Place *neighCase `json:"place"`
 		}
 		if json.Unmarshal(c.ReplayRaw, &nr) == nil && nr.Neigh != nil {
 			judgeNeigh(r, []neighCase{*nr.Neigh})
+			return
+		}
+		if nr.Place != nil {
+			judgePlace(r, []neighCase{*nr.Place})
 			return
 		}
 		var g gcase
@@ -761,6 +766,10 @@ func Run(c *vh.Ctx) {
 	nn := neighbourhood(r)
 	if !r.stopped {
 		c.Res.ExhaustiveWhat += fmt.Sprintf("; the fast-path neighbourhood of counted loops (harness-only: header shapes x what the body does to the loop variable, incl. reference alias, closure capture, array index, unset, parameter / static as loop variable): %d programs", nn)
+	}
+	np, pd := placement(r)
+	if !r.stopped {
+		c.Res.ExhaustiveWhat += fmt.Sprintf("; placements (harness-only: static single / comma list, return, break, continue, nested function declaration, yield inside every statement container — if / elseif / else, while, do-while, for, foreach, switch case / default, match-arm block, try / catch / finally — nested 1..%d deep exhaustively, deeper sampled; 5 calls incl. recursion): %d programs", pd, np)
 	}
 	// seeded programs
 	n := c.N(1500, 60000)
